@@ -4,6 +4,7 @@ import (
 	"bufio"
 	"bytes"
 	"encoding/json"
+	"errors"
 	"fmt"
 	"io"
 	"os"
@@ -78,6 +79,7 @@ func apiRun(args []string) error {
 	defer w.Flush()
 	if variant == "core" {
 		parseableRoot(w)
+		userErrors(w)
 		textScannerEntryPoints(w)
 		deepAndHistoryEntryPoints(w)
 	}
@@ -285,6 +287,94 @@ func (p *prWord) Parse(lex *lexer.PeekingLexer) error {
 	}
 	p.Word = t.Value
 	return nil
+}
+
+// ueItem is a nested production implemented by user code that fails with a plain Go error on the token "bad".
+type ueItem struct{ W string }
+
+func (u *ueItem) Parse(lex *lexer.PeekingLexer) error {
+	t := lex.Peek()
+	if t.EOF() {
+		return participle.NextMatch
+	}
+	lex.Next()
+	if t.Value == "bad" {
+		return errors.New("user code says no")
+	}
+	u.W = t.Value
+	return nil
+}
+
+type ueGrammar struct {
+	Head  string    `@Ident`
+	Items []*ueItem `@@*`
+}
+
+// userErrors: errors that come from user code (a nested Parseable, a token mapper) reach the caller unchanged through every entry
+// point; block "usererr", every emitted outcome of one input must be the same.
+func userErrors(w *bufio.Writer) {
+	render := func(v *ueGrammar, err error) string {
+		if err != nil {
+			return fmt.Sprintf("err %T %s", err, err.Error())
+		}
+		var ws []string
+		for _, it := range v.Items {
+			ws = append(ws, it.W)
+		}
+		return "ok " + v.Head + ":" + strings.Join(ws, ",")
+	}
+	mapper := participle.Map(func(t lexer.Token) (lexer.Token, error) {
+		if t.Value == "boom" {
+			return t, errors.New("mapper says no")
+		}
+		return t, nil
+	})
+	for pi, opts := range [][]participle.Option{
+		{participle.Lexer(coreLexer), participle.Elide("WS", "Comment")},
+		{participle.Lexer(coreLexer), participle.Elide("WS", "Comment"), mapper},
+	} {
+		p, err := participle.Build[ueGrammar](opts...)
+		if err != nil {
+			fmt.Fprintf(w, "usererr\t%d\t0\tbuild\tbuilderr %v\n", pi, err)
+			continue
+		}
+		for i, s := range []string{"x a b", "x bad y", "x a bad", "x a #c# bad", "x boom", "boom", "x a boom b", "x"} {
+			emit := func(ep, out string) { fmt.Fprintf(w, "usererr\t%d\t%d\t%s\t%s\n", pi, i, ep, out) }
+			v1, e1 := p.ParseString("fn", s)
+			emit("ParseString", render(v1, e1))
+			v2, e2 := p.ParseBytes("fn", []byte(s))
+			emit("ParseBytes", render(v2, e2))
+			v3, e3 := p.Parse("fn", strings.NewReader(s))
+			emit("Parse", render(v3, e3))
+			var buf bytes.Buffer
+			v4, e4 := p.ParseString("fn", s, participle.Trace(&buf))
+			emit("ParseString+Trace", render(v4, e4))
+			raw, lerr := p.Lex("fn", strings.NewReader(s))
+			if lerr != nil {
+				// the token stream cannot be produced: every Parse entry point reports exactly this error
+				emit("Lex (error)", fmt.Sprintf("err %T %s", lerr, lerr.Error()))
+				continue
+			}
+			if pl, err := lexer.Upgrade(&sliceTokLexer{toks: raw}, p.Lexer().Symbols()["WS"], p.Lexer().Symbols()["Comment"]); err == nil {
+				v5, e5 := p.ParseFromLexer(pl)
+				emit("ParseFromLexer", render(v5, e5))
+			}
+		}
+	}
+}
+
+type sliceTokLexer struct {
+	toks []lexer.Token
+	i    int
+}
+
+func (s *sliceTokLexer) Next() (lexer.Token, error) {
+	if s.i >= len(s.toks) {
+		return s.toks[len(s.toks)-1], nil
+	}
+	t := s.toks[s.i]
+	s.i++
+	return t, nil
 }
 
 // parseableRoot: ParseFromLexer on a Parseable root must leave the caller's lexer just after what the user code consumed.
